@@ -11,6 +11,7 @@ package main
 import (
 	"bytes"
 	"encoding/json"
+	"errors"
 	"flag"
 	"fmt"
 	"os"
@@ -35,22 +36,24 @@ type violation struct {
 }
 
 type result struct {
-	Seed       uint64           `json:"seed"`
-	Family     string           `json:"family"`
-	Focus      string           `json:"focus"`
-	Arm        string           `json:"arm"`
-	Violations []violation      `json:"violations"`
-	Events     uint64           `json:"events"`
-	SimNs      int64            `json:"sim_ns"`
-	LogHash    string           `json:"log_hash"`
-	SigHash    string           `json:"sig_hash"`
-	Faults     map[string]int64 `json:"faults"`
-	Probes     map[string]int64 `json:"probes"`
-	Stats      map[string]int64 `json:"stats"`
-	Exhausted  bool             `json:"exhausted"`
-	Nontrivial bool             `json:"nontrivial"`
-	Note       string           `json:"note"`
-	Sample     json.RawMessage  `json:"sample"`
+	Seed         uint64           `json:"seed"`
+	Family       string           `json:"family"`
+	Focus        string           `json:"focus"`
+	Arm          string           `json:"arm"`
+	Violations   []violation      `json:"violations"`
+	Events       uint64           `json:"events"`
+	SimNs        int64            `json:"sim_ns"`
+	LogHash      string           `json:"log_hash"`
+	SigHash      string           `json:"sig_hash"`
+	Faults       map[string]int64 `json:"faults"`
+	Probes       map[string]int64 `json:"probes"`
+	Stats        map[string]int64 `json:"stats"`
+	Exhausted    bool             `json:"exhausted"`
+	Nontrivial   bool             `json:"nontrivial"`
+	Note         string           `json:"note"`
+	Sample       json.RawMessage  `json:"sample"`
+	AcceptExit   int              `json:"accept_exit"`
+	AcceptStderr string           `json:"accept_stderr"`
 
 	crashed bool
 	stderr  string
@@ -126,7 +129,7 @@ var props = map[string]propCfg{
 	"C18": {Focus: "C18", Arms: []string{"xclose", "rclose", "startfault", "xclose"}, Probes: []string{"c18_upstream_close_checked", "c18_router_close_checked", "c18_call_after_close", "c18_call_inflight_at_close"}},
 	"C19": {Focus: "C19", Arms: []string{"clean", "clean", "prefetch"}, Probes: []string{"cache_hit", "cache_hit_last_quarter", "c07_hit_expected"}},
 	"C09": {Focus: "C09", Arms: []string{"clean"}, Probes: []string{"c09_truncated", "c09_fits"}},
-	"C10": {Focus: "C10", Arms: []string{"clean", "startfault", "clean", "prefetch"}, Probes: []string{"c10_forward_checked", "c10_reject", "c10_refused"}},
+	"C10": {Focus: "C10", Arms: []string{"clean", "startfault", "clean", "prefetch", "cli"}, Probes: []string{"c10_cli_unknown_key_rejected", "c10_cli_control_started", "c10_forward_checked", "c10_reject", "c10_refused"}},
 	"C11": {Focus: "C11", Arms: []string{"clean"}, Probes: []string{"c10_forward_checked", "c11_matched", "c11_unmatched"}},
 	"C12": {Focus: "C12", Arms: []string{"clean", "clean", "overload"}, Probes: []string{"c12_client_opt_checked", "c12_upstream_opt_checked", "c12_ecs_checked"}},
 	"C13": {Focus: "C13", Arms: []string{"clean", "overload"}, Probes: []string{"c13_conn_checked", "c13_pipelined", "c13_overload"}},
@@ -186,8 +189,19 @@ func runChild(env []string, outFile string) *result {
 		r.races = raceReports(stderr.String())
 	}
 	if rerr == nil && json.Unmarshal(b, r) == nil && !timedOut && (err == nil || len(r.races) > 0) {
+		r.AcceptExit = 0
 		return r
 	}
+	// a verdict written ahead of a step that ends the process from inside
+	// (the CLI's fatal log on a rejected configuration file)
+	if rerr == nil && !timedOut && r.AcceptExit != 0 && r.AcceptStderr != "" {
+		var ee *exec.ExitError
+		if errors.As(err, &ee) && ee.ExitCode() == r.AcceptExit && strings.Contains(stderr.String(), r.AcceptStderr) && !strings.Contains(stderr.String(), "panic:") {
+			r.AcceptExit = 0
+			return r
+		}
+	}
+	*r = result{races: r.races}
 	r.crashed = true
 	r.timeout = timedOut
 	r.stderr = tail(stderr.String(), 6000)
